@@ -56,6 +56,31 @@ static inline int post_verif_tile(sv_t shape, sv_t reps, sv_t idx, sv_t ret)
  * out[..., i, ...] = a[..., (i - shift) mod n, ...] on the rolled axis (mathematical mod, any shift sign / magnitude),
  * all other coordinates unchanged. */
 #define C04_AXIS_OK(axis, ndim)  ((ndim) <= CAP && -(long)(ndim) <= (long)(axis) && (long)(axis) < (long)(ndim))
+/* int % int (C's truncating remainder) of the code under contract and of the spec: the C operator natively and in
+ * bit-precise mode; in UF mode an uninterpreted function constrained by theorems of C's `%` (the equivalence of two
+ * symbolic-divisor remainders is out of reach of the SAT back end; needed for index::roll with a reduced shift). */
+#ifdef VERIF_NATIVE
+  #define MOD_i(a, b) ((a) % (b))
+#elif defined(VERIF_UF)
+  #undef MOD_i
+  int __CPROVER_uninterpreted_smod(int, int);
+  static inline int MOD_i(int a, int b)
+  {
+    __CPROVER_assert(b != 0, "division by zero (UF mode, int %)");
+    __CPROVER_assert(!(b == -1 && a == (-2147483647 - 1)), "int % overflow INT_MIN % -1 (UF mode)");
+    int r = __CPROVER_uninterpreted_smod(a, b);
+    __CPROVER_assume(a < 0 || r >= 0);
+    __CPROVER_assume(a > 0 || r <= 0);
+    if (b > 0) {
+      __CPROVER_assume(-b < r && r < b);
+      __CPROVER_assume(!(-b < a && a < b) || r == a);
+      __CPROVER_assume(!(b <= a && a - b < b) || r == a - b);
+      __CPROVER_assume(!(a <= -b && -b < a + b) || r == a + b);
+    }
+    return r;
+  }
+#endif
+
 /* Python-style normalised axis (0 when the axis is not valid for ndim <= CAP) */
 static inline unsigned long c04_nax(int axis, unsigned long ndim)
 {
@@ -70,7 +95,7 @@ static inline long c04_floor_mod(long a, long n) { long r = a % n; return r < 0 
  * lemmas/c04_roll_mod.lean (theorem c04_roll_src_eq_math_mod); natively both forms are evaluated and compared. */
 static inline long c04_roll_src(long i, int s, long n)
 {
-  long r1 = (long)(s % (int)n), d = i - r1;
+  long r1 = (long)MOD_i(s, (int)n), d = i - r1;
   return d < 0 ? d + n : (d >= n ? d - n : d);
 }
 #ifdef VERIF_NATIVE
